@@ -468,7 +468,10 @@ def process_slice(ctx, tasks, acc, ok_build, scan_sel):
 
 
 def run(ctx):
-    ok_build = ctx.lean_stage([], ["Verif.Props.C04", "Verif.Props.Coalesce"])
+    ok_build = ctx.lean_stage(["emph_chars"], ["Verif.Props.C04", "Verif.Props.Coalesce", "Verif.Props.Emphasis", "Verif.Props.GfmRender"])
+    import blocks
+    blocks.emphasis(ctx)       # resolve_wellNested: emphasis start/end tokens balanced and properly nested for every input
+    blocks.gfm(ctx)            # the generator's stack discipline on well-formed streams (render_run, render_balanced)
     ctx.block("coalescelib", "coalesce")        # coalesce pass preserves well-formedness (coalesce_preserves_wf)
     if not ok_build:
         ctx.broken.append("lake build failed: the monitor cannot be run")
